@@ -600,7 +600,7 @@ fn rand_pattern(r: &mut Rng, esc: bool) -> String {
 }
 
 fn rand_text(r: &mut Rng, p: &str) -> String {
-    let pool: Vec<char> = p.chars().chain(['a', 'b', '.', '-', 'c']).collect();
+    let pool: Vec<char> = p.chars().chain(['a', 'b', '.', '-', 'c', '𝄞', '😀']).collect();
     let mut s = String::new();
     for _ in 0..r.below(7) {
         s.push(*r.pick(&pool));
@@ -733,6 +733,19 @@ fn main() {
     // 1. punctuation sweep (both tiers)
     for (esc, p, t) in punct_sweep() {
         go(mcase(esc, &p, &t));
+    }
+
+    // 1b. UTF-8 leg (both tiers): texts over characters of 1, 2, 3 and 4 bytes (two non-BMP ones) so that
+    // match starts and `rfind`'s "next char boundary" step land on every encoded length
+    let wide: [char; 5] = ['a', 'é', 'あ', '𝄞', '😀'];
+    let wtexts = all_strings(&wide, 3);
+    for p in [
+        "?", "*", "??", "*?", "?*", "a*", "*a", "?a", "[!a]", "[!a]*", "*[!a]", "𝄞", "𝄞*", "*𝄞", "*😀", "😀?",
+        "[😀-😂]", "[!😀]", "*[𝄞😀]", "[[.𝄞.]]*", "*[![.😀.]]", "?😀*", "*あ", "é*",
+    ] {
+        for t in &wtexts {
+            go(mcase(false, p, t));
+        }
     }
 
     // 2. exhaustive small scope
